@@ -164,7 +164,7 @@ func vfAllow(s *vfSeq, gap time.Duration, cpu int64) (shed bool) {
 	if len(fs) > 0 {
 		vfReport(s, fs, p)
 	}
-	legal := (p.Over || p.Hot) && float64(p.Flying) > vfLowBound*p.CapLo
+	legal := (p.Over || p.HotMay) && float64(p.Flying) > vfLowBound*p.CapLo
 	must := p.Over && float64(p.Flying) > p.CapHi && p.Avg > p.CapHi
 	if legal {
 		s.nontrivial = true
